@@ -1,6 +1,6 @@
 (* C18 — Adam7 geometry is exact for every image size. Statements only. *)
 From OxiVerif Require Import Base.Common Spec.Adam7 Model.Types Model.Headers Model.ScanLines Model.Interlace
-  Proofs.ScanProofs Proofs.InterlaceProofs Proofs.HeaderProofs.
+  Proofs.ScanProofs Proofs.InterlaceProofs Proofs.HeaderProofs Proofs.Adam7RoundTrip.
 
 (* The scan-line iterator emits exactly the pass sizes and row lengths the specification
    prescribes (empty passes omitted), for every width, height >= 1 and every pixel size >= 1 bit *)
@@ -46,6 +46,28 @@ Theorem C18_pass_pixel_position : forall (A : Type) (d0 : A) p (r : list A) (k :
   nth k (sel (col_in p) 0 r) d0 = nth (Z.to_nat (x0 p + Z.of_nat k * dx p)) r d0.
 Proof. exact @nth_sel_col. Qed.
 Print Assumptions C18_pass_pixel_position.
+
+(* doing both conversions returns the original pixels: at the level of the specification, for every width and height
+   (and hence, by C18_interlace_is_spec, for the code's interlacing followed by the specification's de-interlacing) *)
+Theorem C18_spec_roundtrip : forall (A : Type) (rows : list (list A)) (w h : Z),
+  0 <= w -> 0 <= h -> length rows = Z.to_nat h -> (forall r, In r rows -> length r = Z.to_nat w) ->
+  spec_deinterlace w h (spec_interlace rows) = Some rows.
+Proof. exact @spec_deinterlace_interlace. Qed.
+Print Assumptions C18_spec_roundtrip.
+
+Theorem C18_model_interlace_roundtrip : forall (A : Type) (rows : list (list A)) (w h : Z),
+  0 <= w -> 0 <= h -> length rows = Z.to_nat h -> (forall r, In r rows -> length r = Z.to_nat w) ->
+  spec_deinterlace w h (model_interlace rows) = Some rows.
+Proof. intros. rewrite model_interlace_is_spec. apply spec_deinterlace_interlace; assumption. Qed.
+Print Assumptions C18_model_interlace_roundtrip.
+
+(* the pixel read back at (x, y) is the pixel that was there *)
+Theorem C18_pixel_roundtrip : forall (A : Type) (rows : list (list A)) (w : nat) x y,
+  (forall r, In r rows -> length r = w) -> 0 <= x < Z.of_nat w -> 0 <= y ->
+  spec_pixel_at (spec_interlace rows) x y =
+  match nth_error rows (Z.to_nat y) with Some r => nth_error r (Z.to_nat x) | None => None end.
+Proof. exact @spec_pixel_at_interlace. Qed.
+Print Assumptions C18_pixel_roundtrip.
 
 (* non-vacuity *)
 Example C18_example : spec_lines 5 3 = [(1, 1); (2, 1); (4, 1); (5, 3); (6, 2); (6, 2); (7, 5)].
